@@ -122,6 +122,10 @@ class RegWorld(World):
                 c.fmt_errors.append('ControlParameters without Name')
             else:
                 c.prefix = [bytes(x) for x in tlvref.name_components(inner, n[2], n[3])]
+            extra = [hex(t) for (t, _s, _v, _e) in els if t != tlvref.T_NAME]
+            if extra:
+                # register()/unregister() were given a prefix and nothing else: the forwarder would act on any further field
+                c.fmt_errors.append(f'ControlParameters carry fields the caller never set: {extra}')
         except (tlvref.TlvError, IndexError) as e:
             c.fmt_errors.append(f'undecodable ControlParameters: {e}')
         if self.fe == 'v2':
@@ -269,6 +273,15 @@ class RegWorld(World):
             self.log('main-done', ok=False, exc=exc_brief(e), where=innermost_ndn_frame(e))
 
     def _start(self):
+        if self.scenario.get('config', {}).get('other_command_first'):
+            # another part of the application (an nfdc-like tool) built a command with more parameters earlier
+            from ndn.app_support import nfd_mgmt
+            nfd_mgmt.make_command_v2('rib', 'register', None, name='/other/tool', face_id=300, cost=10, origin=255, flags=1)
+            nfd_mgmt.make_command('faces', 'update', None, face_id=7, flags=3, mask=3)
+        if self.fe != 'v2' and self.scenario.get('config', {}).get('v1_strict_data_validator'):
+            async def strict(name, sig):
+                return False            # this application trusts no Data that is merely digest-signed
+            self.app.data_validator = strict
         for pfx in self.scenario.get('routes_before', []):
             self.app.route('/' + '/'.join(pfx))(lambda *a, **k: None)
             self.log('route', prefix=pfx, running=False, conn=-1)
@@ -410,8 +423,8 @@ class RegWorld(World):
             pol = cmd.policy
             kind = pol.get('kind', 'ok')
             delay = pol.get('delay_us', 100)
-            if kind == 'ok' and pol.get('badsig') and fe != 'v2':
-                exp = {False}
+            if kind == 'ok' and fe != 'v2' and (pol.get('badsig') or self.scenario['config'].get('v1_strict_data_validator')):
+                exp = {False}           # the reply did not pass the application's Data validator: failure, without raising
             elif kind == 'ok':
                 wsl = W_US + 3 * max(self.scenario.get('config', {}).get('wall_ticks', [0]) or [0])
                 exp = {True} if delay < LIFETIME_US - wsl else ({False} if delay > LIFETIME_US + wsl else {True, False})
@@ -461,6 +474,10 @@ def generate(rng, seed, tier='quick'):
     fe = rng.choice(['v1', 'v2'])
     cfg = {'frontend': fe, 'turn_cost_us': rng.choice([0, 0, 1, 3]), 'wall_gran_us': rng.choice([1000, 1000, 2000, 8000]),
            'debug_log': rng.random() < 0.2}
+    if rng.random() < 0.15:
+        cfg['other_command_first'] = True
+    if fe == 'v1' and rng.random() < 0.1:
+        cfg['v1_strict_data_validator'] = True
     if rng.random() < 0.25:
         # the wall clock moves on between two consecutive reads now and then (a tick, or a whole granule)
         cfg['wall_ticks'] = [rng.choice([0, 0, 0, 0, 400, cfg['wall_gran_us']]) for _ in range(60)]
